@@ -1,4 +1,5 @@
 From V Require Import model.Base model.Conc model.Events model.SpscQueue model.OverflowQueue model.SpscQueueRA.
+From V Require model.OverflowQueueRA.
 Require Extraction.
 Require Import ExtrOcamlBasic.
 Extraction Language OCaml.
@@ -23,4 +24,13 @@ Definition ra_race := SpscQueueRA.race.
 Definition ra_oracle := SpscQueueRA.oracle.
 Definition ra_conserving (g : rgst) : bool :=
   if list_eq_dec N.eq_dec (rpushed g) (rpopped g ++ rcontent g) then true else false.
-Extraction "../ocaml/c03/model.ml" ra_step1 ra_init ra_mk_ords ra_ords_code ra_set_oracle ra_race ra_oracle ra_conserving spsc_step1 spsc_init spsc_content spsc_push spsc_ops oq_step1 oq_init oq_content oq_push oq_ops N.of_nat N.to_nat.
+Definition oqra_step1 (Q : OverflowQueueRA.qords) := Conc.step1 (OverflowQueueRA.qstep Q).
+Definition oqra_init := OverflowQueueRA.qinit.
+Definition oqra_mk_ords := OverflowQueueRA.Build_qords.
+Definition oqra_set_oracle := OverflowQueueRA.set_oracle.
+Definition oqra_race_used := OverflowQueueRA.race_used.
+Definition oqra_race_spec := OverflowQueueRA.race_spec.
+Definition oqra_oracle := OverflowQueueRA.qoracle.
+Definition oqra_conserving (g : OverflowQueueRA.qgst) : bool :=
+  if list_eq_dec N.eq_dec (OverflowQueueRA.qpushed g) (map fst (OverflowQueueRA.qremoved g) ++ OverflowQueueRA.qcontent g) then true else false.
+Extraction "../ocaml/c03/model.ml" oqra_step1 oqra_init oqra_mk_ords oqra_set_oracle oqra_race_used oqra_race_spec oqra_oracle oqra_conserving ra_step1 ra_init ra_mk_ords ra_ords_code ra_set_oracle ra_race ra_oracle ra_conserving spsc_step1 spsc_init spsc_content spsc_push spsc_ops oq_step1 oq_init oq_content oq_push oq_ops N.of_nat N.to_nat.
